@@ -41,7 +41,7 @@ Leaves == {I(<<"5">>), S(<<"x">>), B, TrNil,
 Flat  == {[TrStk(k, <<l>>) EXCEPT !.cap = c] : k \in {"AND", "LIST", "BASIC"}, l \in Leaves, c \in {0, 3}}
      \cup {TrStk("OR", <<l1, l2>>) : l1 \in Leaves, l2 \in {I(<<"5">>), Sl(FALSE, Ints), S(<<"x">>)}}
 InCond == {TrStk("AND", <<TrCnd(<<"k">>, "Eq", l), S(<<"y">>)>>) : l \in Leaves \ {TrNil}}
-     \cup {TrStk("AND", <<TrCnd(kw, op, S(<<"v">>))>>) : kw \in {<<"k">>, <<"K", "x">>, <<"c", "1">>}, op \in {"like", "LIKE", "Ge"}}
+     \cup {TrStk("AND", <<TrCnd(kw, op, S(<<"v">>))>>) : kw \in {<<"k">>, <<"K", "x">>, <<"c", "1">>}, op \in {"like", "LIKE", "Ge", "uslice"}}       \* uslice: a user operator of a NON-COMPARABLE Go type on both sides
 Nested == {TrStk("AND", <<S(<<"y">>), [TrStk("OR", <<l, KV>>) EXCEPT !.form = f], TrCnd(<<"c">>, "Ge", TrStk("LIST", <<l>>))>>) :
              l \in Leaves, f \in {"native", "alias", "ptr"}}
 
